@@ -35,7 +35,8 @@ BodyFailed(line) ==
    \cup (IF ~ok /\ line.after1 # line.sent /\ ~("parsed1" \in DOMAIN line /\ ~c.skip /\ Eq(line.parsed1, WithDefaults(c.schema, c.v)))
          THEN {"body_readable_in_full"} ELSE {})
    \cup (IF changed /\ ~("parsed1" \in DOMAIN line /\ Eq(line.parsed1, w)) THEN {"defaults_exactly_once"} ELSE {})
-   \cup (IF line.clen1 # line.len1 THEN {"content_length_matches"} ELSE {})
+   \* (a body of unknown length may stay of unknown length: ContentLength 0 next to a non-empty body)
+   \cup (IF line.clen1 # line.len1 /\ ~(c.unsized /\ line.clen1 = 0) THEN {"content_length_matches"} ELSE {})
    \cup (IF line.getbody1 # "<nil>" /\ line.getbody1 # line.after1 THEN {"getbody_yields_same"} ELSE {})
    \cup (IF line.verdict2 # line.verdict1 THEN {"revalidates_same"} ELSE {})
    \cup (IF line.after2 # line.after1 THEN {"second_validation_changes_nothing"} ELSE {})
